@@ -12,7 +12,7 @@ RULE = ("Cases: (consistency) methods {hilbert,nht,quad} x sample rates {64..400
         "1-3 columns; (sinusoid) pure cosines with >=6 cycles per record, f <= sr/12, amplitude over 3 decades, start "
         "phase in [0,2pi); (roundtrip) frequency profiles {constant, ramp, sinusoidally modulated, random smooth} in 1-3 "
         "columns through phase_from_freq -> freq_from_phase; (scale) x -> c*x for c=2^k (|k|<=8) and real c in "
-        "[1e-3,1e3], plus amplitude_normalise sign/scale invariance. Oracle: shapes; 0<=IP<=2pi (exact 2pi counted); "
+        "[1e-3,1e3], plus amplitude_normalise sign/scale invariance; (stack) 3-D [samples x imfs x imfs2] input vs its 2-D slices. Oracle: shapes; 0<=IP<=2pi (exact 2pi counted); "
         "IF == sr*gradient(unwrap(IP))/2pi (1e-6 rel); interior-half medians |IF-f|/f, |IA-A|/A, circular |IP-truth| "
         "within calibrated tolerances (hilbert/nht also pointwise); roundtrip[i] == (f[i]+f[i+1])/2 inside, f[1], "
         "f[-1] at the ends (1e-9); IP/IF unchanged and IA scaled under c (1e-12 dyadic, 1e-6 real). Non-trivial: "
@@ -235,7 +235,47 @@ def oracle_scale(case, rec):
     return c != 1.0
 
 
+@st.composite
+def stack_case(draw):
+    return {'method': draw(st.sampled_from(METHODS)), 'sr': draw(st.sampled_from(RATES)), 'n': draw(st.integers(300, 1200)),
+            'k': draw(st.integers(0, 2**32 - 1)), 'm': draw(st.integers(1, 3)), 'kk': draw(st.integers(2, 6)),
+            'f_rel': draw(st.sampled_from([0.02, 0.04, 0.07])), 'am': draw(st.sampled_from([0.0, 0.3])),
+            'fm': draw(st.sampled_from([0.0, 0.8]))}
+
+
+def oracle_stack(case, rec):
+    """3-D second-level input [samples x imfs x imfs2]: every IMF must be transformed independently of its neighbours,
+    i.e. the result for the stack equals the result for each 2-D slice, and has the stack's shape."""
+    import emd
+    m, kk = case['m'], case['kk']
+    cols = amfm(case['n'], case['sr'], case['k'], case['f_rel'], case['am'], case['fm'], 1)
+    n = cols.shape[0]
+    stack = np.zeros((n, m, kk))
+    for i in range(m):
+        for j in range(kk):
+            stack[:, i, j] = amfm(n, case['sr'], case['k'] + 17 * i + j, case['f_rel'] * (0.6 + 0.4 * ((i + j) % 3) / 2),
+                                  case['am'], case['fm'], 1)[:n, 0] * (1 + i + 0.5 * j)
+    meth = case['method']
+    IP, IF, IA = ft(emd, stack.copy(), case['sr'], meth, 'stack')
+    for name, arr in (('IP', IP), ('IF', IF), ('IA', IA)):
+        if np.asarray(arr).shape != stack.shape:
+            raise Violation('C09/stack/shape/%s/%s' % (name, meth), '%r vs %r' % (np.asarray(arr).shape, stack.shape))
+    for j in range(kk):
+        ip2, if2, ia2 = ft(emd, stack[:, :, j].copy(), case['sr'], meth, 'stack')
+        dph = np.abs(np.angle(np.exp(1j * (IP[:, :, j] - ip2)))).max()
+        dif = np.abs(IF[:, :, j] - if2).max() / (np.abs(if2).max() + 1e-30)
+        dia = np.abs(IA[:, :, j] - ia2).max() / (np.abs(ia2).max() + 1e-30)
+        if dph > 1e-9 or dif > 1e-9 or dia > 1e-9:
+            raise Violation('C09/stack/imf-depends-on-its-neighbours/%s' % meth,
+                            'second-level IMF %d of %d: phase %.3g, freq %.3g, amp %.3g relative to the 2-D result' % (j, kk, dph, dif, dia))
+    rec.cls('method=' + meth)
+    rec.cls('stack=%dx%d' % (m, kk))
+    return True
+
+
 CLAUSES = [
+    Clause('C09.stack', oracle_stack, strategy=stack_case(), quick=240, thorough=6000, shards=(8, 16),
+           nt_rule='every evaluated stack (>= 2 second-level IMFs)'),
     Clause('C09.consistency', oracle_consistency, strategy=amfm_case(), quick=1200, thorough=30000, shards=(4, 16),
            nt_rule='>=2 columns or non-zero AM/FM depth'),
     Clause('C09.sinusoid', oracle_sin, strategy=sin_case(), quick=1200, thorough=30000, shards=(4, 16),
